@@ -170,6 +170,11 @@ def judge(case, ctx, prefix='C14'):
     if family == 'dc':
         p = rng.randint(1, 6)
         adapters.append(('real', lambda: ds.real_solution(d, precision=p), {'p': p, 'mode': 'real', 'scale': 1.0}))
+        if rng.random() < 0.5:
+            # the time-function annotation of a DC circuit (w = 0): a constant with its sign
+            sin0, dg0, hz0 = rng.random() < 0.5, rng.random() < 0.5, rng.random() < 0.5
+            adapters.append(('time-domain', lambda: ds.single_frequency_time_domain_steady_state_solution(d, w=0.0, sin=sin0, deg=dg0, hertz=hz0),
+                             {'p': 3, 'mode': 'sinus', 'sin': sin0, 'deg': dg0, 'hertz': hz0, 'scale': 1 / math.sqrt(2)}))
     else:
         p = rng.randint(1, 6)
         polar, deg = rng.random() < 0.5, rng.random() < 0.5
@@ -316,9 +321,17 @@ def judge_complex_value(ctx, prefix, where, text, z, p, unit, tbl, polar, deg, n
 
 def judge_sinus_value(ctx, prefix, where, text, z, unit, p, w, sin, deg, hertz, numtol):
     q = C18.parse_sinusoid(text, unit, p)
+    if w == 0:
+        # a constant: the label denotes Re(z) = |z| cos(phase), sign included (and so changes sign when requested in reverse)
+        ctx.count('sinusoid_dc_labels_judged')
+        if q['fn'] is not None:
+            ctx.violation(f'{prefix}/{where}/dc-rendered-as-oscillation', f'{text!r}', {})
+        elif abs(z.real) > 16 * numtol:
+            judge_value(ctx, prefix, where + '/dc-value', text, z.real, p, unit, C18.TABLES['display'], numtol)
+        return
     if not judge_value(ctx, prefix, where + '/amplitude', q['amp'], abs(z), p, unit, C18.TABLES['display'], numtol):
         return
-    if w == 0 or abs(z) <= 16 * numtol:
+    if abs(z) <= 16 * numtol:
         return
     if q['fn'] is None or (q['fn'] == 'sin') != bool(sin) or q['hertz'] != bool(hertz):
         ctx.violation(f'{prefix}/{where}/wrong-form', f'{text!r} (sin={sin}, hertz={hertz})', {})
